@@ -84,7 +84,10 @@ def run(ctx):
     compare(ctx, R, "energy difference", pick(E, "energy_diff", value_has=["-"]), pick(S, "energy_diff"), e, s)
     compare(ctx, R, "energy-increase tolerance", pick(E, "neg_energy_eps"), pick(S, "neg_energy_eps"), e, s)
     compare(ctx, R, "new search direction", pick(E, "d", value_has=["gamma"]), pick(S, "d", value_has=["gamma"]), e, s)
-    compare(ctx, R, "residual norm", pick(E, "norm", value_has=["norm("], guard_lacks=["name"]), pick(S, "norm", value_has=["norm("]), e, s, guards=True)
+    en = pick(E, "norm", value_has=["norm("], guard_lacks=["name"])
+    if not en:  # the eager loop computes the norm differently: compare whatever it assigns under the residual criterion
+        en = pick(E, "norm", guard_has=["resnorm is not None"], guard_lacks=["name"])
+    compare(ctx, R, "residual norm", en, pick(S, "norm", value_has=["norm("]), e, s, guards=True)
     # stopping conditions: info := 0 / i
     compare(ctx, R, "stop: gamma tiny -> converged", pick(E, "info", guard_has=["gamma <="]), pick(S, "info", guard_has=["gamma <="]), e, s, guards=True)
     compare(ctx, R, "stop: residual norm criterion", pick(E, "info", guard_has=["norm <"]), pick(S, "info", guard_has=["norm <"]), e, s, guards=True)
@@ -354,3 +357,62 @@ def fallback_expressions(m):
         if "pos" in d:
             out["compiled"] = (s, d["pos"])
     return out
+
+
+def r15_3(ctx, m):
+    """order of the verdicts and number of iterations at the iteration limit"""
+    e = m.func(CG, "_cg")
+    so = m.func(CG, "_static_cg")
+    s = m.func(CG, "_static_cg.cg_single_step")
+    ctx.rule("R15.3", "iteration limit: (a) in the compiled step the limit verdict `(i >= maxiter) & still running -> i` is the LAST "
+                      "assignment to info, after all convergence verdicts - the eager loop only falls out of `range(1, maxiter+1)` "
+                      "when no break fired, so convergence exactly at the limit is success in both; (b) the eager loop performs "
+                      "max(0, maxiter) steps, the compiled while_loop tests its condition (`info < -1`, no maxiter in it) only after a "
+                      "step and therefore performs max(1, maxiter): they agree unless maxiter = 0 is accepted", floor=3)
+    infos = sorted((st for st in walk_no_nested(s.node) if isinstance(st, ast.Assign) and src(st.targets[0]) == "info" and isinstance(st.value, ast.Call)
+                    and call_name(st.value) == "where"), key=lambda st: st.lineno)
+    key = f"{s.key}::the iteration-limit verdict is assigned last"
+    lim = [st for st in infos if "maxiter" in src(st.value.args[0])]
+    if len(lim) != 1 or not infos:
+        ctx.und("R15.3", key, f"{len(lim)} limit verdicts among {len(infos)} info assignments", s)
+    else:
+        later = [st for st in infos if st.lineno > lim[0].lineno]
+        ctx.check("R15.3", key, not later, f"`{short(later[0], 80)}` (line {later[0].lineno}) comes after the limit verdict: an iteration that converges exactly at "
+                                              "i == maxiter is reported as 'limit reached' by the compiled solver and as success by the eager one" if later else src(lim[0]), s, lim[0])
+        guard_ok = "info < -1" in src(lim[0].value.args[0]) or "-1 > info" in src(lim[0].value.args[0])
+        ctx.check("R15.3", f"{s.key}::the limit verdict only applies to a still running state", guard_ok, src(lim[0].value.args[0]), s, lim[0])
+    loops = [lp for lp in walk_no_nested(e.node) if isinstance(lp, ast.For)]
+    key = f"{CG}::_cg <-> _static_cg::same number of steps for every accepted maxiter"
+    cc_ = [f_ for f_ in ast.walk(so.node) if isinstance(f_, ast.FunctionDef) and f_.name == "continue_condition"]
+    if len(loops) != 1 or len(cc_) != 1:
+        ctx.und("R15.3", key, "loop shapes not recognised", e)
+        return
+    it = src(loops[0].iter).replace(" ", "")
+    eager_zero_possible = it in ("range(1,maxiter+1)", "range(1,1+maxiter)")
+    static_at_least_once = "maxiter" not in src(cc_[0])
+    # is maxiter < 1 refused (or clamped) before the loops?
+    def refused(fi):
+        for st in walk_no_nested(fi.node):
+            if isinstance(st, ast.If) and "maxiter" in src(st.test) and any(isinstance(x, ast.Raise) for x in st.body) and any(t in src(st.test).replace(" ", "") for t in ("maxiter<1", "maxiter<=0", "1>maxiter", "0>=maxiter")):
+                return True
+            if isinstance(st, ast.Assign) and src(st.targets[0]) == "maxiter" and ("max(1," in src(st.value).replace(" ", "") or "maximum(1," in src(st.value).replace(" ", "")):
+                return True
+        return False
+    if eager_zero_possible and static_at_least_once:
+        ok = refused(e) and refused(so)
+        if ok:
+            ctx.ok("R15.3", key, "maxiter < 1 is refused / clamped in both", e, loops[0])
+        else:
+            ctx.bad("R15.3", key + "::maxiter=0", "maxiter = 0: the eager loop runs zero times and `info = i if info == -1` turns i = 0 into the success code "
+                                                    "(start point returned with success=True although no criterion was tested); the compiled solver performs one step and "
+                                                    "returns info = 1", e, loops[0])
+    else:
+        ctx.und("R15.3", key, f"eager iterates over `{src(loops[0].iter)}`; compiled condition `{src(cc_[0].body[-1])}`", e, loops[0])
+
+
+_run_c15b = run
+
+
+def run(ctx):  # noqa: F811
+    _run_c15b(ctx)
+    r15_3(ctx, ctx.model)
